@@ -83,6 +83,11 @@ pub fn record(a: &HashMap<String, String>) -> i32 {
         for dual in [false, true] {
             writeln!(f, "{}", conn_event(&model, dual)).unwrap();
         }
+        if i % 3 == 0 {
+            // costs beyond 16 bits: raw connector only
+            let big = gen_bigram_ext(&mut rng, nr, nl, 1, maxk, true);
+            writeln!(f, "{}", conn_event(&big, false)).unwrap();
+        }
         if i % 2 == 0 {
             writeln!(f, "{}", scorer_event(&mut rng)).unwrap();
         }
